@@ -80,7 +80,7 @@ Section Wf.
 
   Lemma inl_syms_ok i : inl_wf ws cls_of i = true -> forallb spec_ok (inl_syms i) = true.
   Proof.
-    induction i as [t| | |t|t|t|k l IH|v ps IH] using inl_ind'; intro H; simpl in *;
+    induction i as [t| |b| |t|t|t|k l IH|v ps IH] using inl_ind'; intro H; simpl in *;
       try reflexivity.
     - rewrite H. reflexivity.
     - rewrite forallb_flat_map. apply forallb_forall. intros x Hx.
@@ -155,7 +155,7 @@ Section Wf.
   (* ---------------------------------------------------------------- excluded leaves *)
   Lemma inl_excl_ok i t : inl_wf ws cls_of i = true -> In t (inl_excl i) -> leaf_ok ws cls_of false t = true.
   Proof.
-    induction i as [t'| | |t'|t'|t'|k l IH|v ps IH] using inl_ind'; simpl; intros H Ht;
+    induction i as [t'| |b| |t'|t'|t'|k l IH|v ps IH] using inl_ind'; simpl; intros H Ht;
       try contradiction; try (destruct Ht as [<-|[]]; exact H).
     - apply in_flat_map in Ht as [x [Hx Ht]]. rewrite Forall_forall in IH.
       apply (IH x Hx); [exact (forallb_In _ _ _ H Hx) | exact Ht].
